@@ -97,6 +97,9 @@ def horizon_not_a_date_rule(ctx: Ctx, rid: str):
 
 
 def run_extra(ctx: Ctx):
+    # ---------------------------------------------------------------- R09.9 limit counters of one scenario must not be those of another: what the added task books in one scenario would block existing tasks in the next (= C05 R05.7)
+    from .c05 import limit_copy_rule
+    limit_copy_rule(ctx, "R09.9")
     # ---------------------------------------------------------------- R09.7 answers never come from state that outlives the question
     from .common import process_state_rule
     process_state_rule(ctx, "R09.7", [ctx.repo.func("Project.schedule"), ctx.repo.func("ProjectFileParser.parse")],
